@@ -1,6 +1,6 @@
 \* C02/C13 quick: three graph families (all nine in thorough), 2 block heights, states reached through a reorg kept apart (PathView).
 CONSTANTS
-  GraphIds = {1,3,4}
+  GraphIds = {1,3,4,12}
   MaxTip = 2
   Mat = 2
   LeaseIds = {1}
